@@ -303,7 +303,8 @@ def _obj(objs, rq):
 
 def _empty_ok(objs, rq):
     """the addressed object legitimately has an empty body (empty file / empty decompressed file)"""
-    if rq["raw"] is not None or rq["mut"] not in ("none", "slash"):
+    # (one type prefix is taken off by the rewriting handler of the full list: the request then addresses the object itself)
+    if rq["raw"] is not None or rq["mut"] not in ("none", "slash", "typeprefix"):
         return False
     o = _obj(objs, rq)
     if o is _ROOT:
